@@ -20,6 +20,7 @@ Require Import RV.Model.Base RV.Model.Slot RV.Model.BuilderGraph RV.Model.Builde
 Require Import RV.Model.BuilderTags RV.Model.BuilderKnown RV.Model.RedisCmds.
 Require Import RV.Gen.Crc16Tab RV.Gen.Builders.
 Require Import RV.Proofs.BuilderProofs RV.Proofs.TagProofs RV.Proofs.BuilderGenProofs.
+Require Import RV.Model.BuilderGen. (* the observer's check_case: built (and kept consistent) with the property *)
 Import ListNotations.
 Open Scope N_scope.
 
